@@ -548,6 +548,8 @@ func TestVerifC09(t *testing.T) {
 	kit.Run(t, "C09", "tree-direct", kit.N(200, 4000), func(c *kit.Case) { treeDirect(c) })
 	kit.Run(t, "C09", "server-options", kit.N(240, 4000), func(c *kit.Case) { serverOptions(c) })
 	kit.Run(t, "C09", "e2e-escaped", kit.N(16, 120), func(c *kit.Case) { e2eEscaped(c) })
+	// registrations interleaved with requests (nothing remembered from earlier lookups may survive a later registration)
+	kit.Run(t, "C09", "incremental", kit.N(600, 20000), func(c *kit.Case) { incremental(c, pats, paths) })
 	kit.End()
 }
 
